@@ -598,7 +598,7 @@ var regexps = []string{
 	`x*y+z?`, `(?m)^ab$`, `[^\n]{1,3}`, `(?i)[k-m]{2}`, `\PL`, `[а-яё]{0,6}`, `(ab){0,3}c{0,2}`, `\w\W\s\S\d\D`, `a\z`, `\Aa`,
 	// long unicode classes sharing a long common prefix; the same class text under different case-folding flags;
 	// patterns whose generated candidates are often rejected by the match re-check
-	`\p{Lu}+`, `[\p{Lu}\p{Lt}]{1,6}`, `\p{Greek}{1,4}`, `[\p{Greek}\p{Cyrillic}]{1,4}`, `(?i)[a-c]{1,4}`, `[A-Ca-c]{1,4}`,
+	`\p{Lu}+`, `[\p{Lu}\p{Lt}]{1,6}`, `\p{Greek}{1,4}`, `[\p{Greek}\p{Cyrillic}]{1,4}`, `(?i)[a-c]{1,4}`, `[A-Ca-c]{1,4}`, `[K-Mk-m]{2}`,
 	`\bid\b.`, `[a-z]+ ?\B[.]`, `\B.\B`, `\b\w{1,3}\b\W?`,
 }
 
